@@ -67,6 +67,11 @@ fn pool(leaves: &[Ty], nparams: usize) -> Vec<Ty> {
     for l in leaves.iter().take(3) {
         p.push(Ty::Option(Ty::Vec(l.clone().b()).b()));
     }
+    // transparent wrappers: the recorded type name is `Box<T>`, the recorded type is T's
+    for l in leaves.iter().take(3) {
+        p.push(Ty::Box(l.clone().b()));
+        p.push(Ty::Option(Ty::Box(l.clone().b()).b()));
+    }
     p
 }
 
